@@ -5,6 +5,7 @@ CHECK_DEADLOCK FALSE
 CONSTANTS
  HonorsHost = FALSE
  SchemeBound = FALSE
+ PgNoMirrors = FALSE
  FoldCase = FALSE
  StripOnRedirect = FALSE
  MaxFaults = 3
